@@ -155,6 +155,170 @@ def tops():
     return out
 
 
+# ---------------------------------------------------------------------------------------------------------------------
+# random instantiation trees ("all instantiation trees (depth, fan-out, repeated templates, slice actuals) over generated
+# leaf entities"): every template has the ports clk?, a, b : in Unsigned[2] and s : out Unsigned[2]; a composite template is
+# a DAG of instances of lower templates; the flat reference is obtained by inlining every instance.
+LEAF_KINDS = {
+    #        sequential?, python expression,                      ADL expression
+    "add": (False, "self.a + self.b", lambda a, b: bin_("add", a, b)),
+    "sub": (False, "self.a - self.b", lambda a, b: bin_("sub", a, b)),
+    "xor": (False, "self.a ^ self.b", lambda a, b: bin_("xor", a, b)),
+    "min": (False, "self.a if self.a < self.b else self.b", lambda a, b: ifexp(bin_("lt", a, b), a, b)),
+    "reg": (True, "self.a", lambda a, b: a),
+    "acc": (True, "self.a + self.b", lambda a, b: bin_("add", a, b)),
+}
+
+
+class Tmpl:
+    def __init__(self, name, kind=None, insts=None, nets=None, in_ctx=False):
+        self.name, self.kind, self.insts, self.nets, self.in_ctx = name, kind, insts or [], nets or [], in_ctx
+        self.seq = LEAF_KINDS[kind][0] if kind else any(t.seq for t, _ in self.insts)
+
+    def source(self):
+        clk = "    clk = Port.input(Bit)\n" if self.seq else ""
+        head = f"class {self.name}(cohdl.Entity):\n{clk}    a = Port.input(Unsigned[2])\n    b = Port.input(Unsigned[2])\n"
+        if self.kind:
+            seq, expr, _ = LEAF_KINDS[self.kind]
+            head += f"    s = Port.output(Unsigned[2]{', default=0' if seq else ''})\n\n    def architecture(self):\n"
+            deco = "@std.sequential(std.Clock(self.clk))" if seq else "@std.concurrent"
+            return head + f"        {deco}\n        def logic():\n            self.s <<= {expr}\n"
+        head += "    s = Port.output(Unsigned[2])\n\n    def architecture(self):\n"
+        body = [f'        {n} = Signal[Unsigned[2]](name="{n}")' for n in self.nets]
+        ind = "        "
+        if self.in_ctx:
+            body += ["        @std.concurrent", "        def wiring():"]
+            ind = "            "
+        for t, conn in self.insts:
+            body.append(ind + inst_src(t, conn, lambda n: f"self.{n}" if n in ("a", "b", "s", "clk") else n))
+        return head + "\n".join(body) + "\n"
+
+
+def inst_src(t, conn, actual):
+    keys = list(conn)
+    # keyword arguments in an order that differs from the declaration order
+    keys = keys[1:] + keys[:1]
+    args = [f"{k}={conn[k] if conn[k].startswith('self.w') else actual(conn[k])}" for k in keys]
+    if t.seq:
+        args.insert(1, "clk=self.clk")
+    return f"{t.name}({', '.join(args)})"
+
+
+def flatten(t, prefix, netmap, out):
+    """inline template t; netmap: formal port -> ADL expression (inputs) / global net name (output)"""
+    if t.kind:
+        seq, _, fn = LEAF_KINDS[t.kind]
+        st = assign("next", netmap["s"], fn(netmap["a"], netmap["b"]))
+        if seq:
+            out["seq"].append(seq_ctx(f"p_{prefix}", [st]))
+            out["registered"].add(netmap["s"])
+        else:
+            out["conc"].append(st)
+        return
+    glob = {n: f"{prefix}_{n}" for n in t.nets}
+    for n in t.nets:
+        out["nets"].append(glob[n])
+    for i, (sub, conn) in enumerate(t.insts):
+        def res(n, is_out=False):
+            if n in glob:
+                return glob[n] if is_out else ref(glob[n])
+            return netmap[n]
+        flatten(sub, f"{prefix}i{i}", {"a": res(conn["a"]), "b": res(conn["b"]), "s": res(conn["s"], True)}, out)
+
+
+def random_tree(rng, idx, depth, with_slices):
+    S = f"_r{idx}"
+    leaves = {k: Tmpl(f"L{k}{S}", kind=k) for k in LEAF_KINDS}
+    levels = [list(leaves.values())]
+    count = [0]
+
+    def composite(level):
+        pool = [t for lv in levels[:level] for t in lv]
+        n = rng.choice((2, 2, 3))
+        nets, insts, avail = [], [], ["a", "b"]
+        for i in range(n):
+            sub = rng.choice(pool if i or level < 2 else levels[level - 1])      # at least one instance of the level below
+            out = "s" if i == n - 1 else f"n{i}"
+            if out != "s":
+                nets.append(out)
+            insts.append((sub, {"a": rng.choice(avail), "b": rng.choice(avail), "s": out}))
+            avail.append(out) if out != "s" else None
+        count[0] += 1
+        return Tmpl(f"C{level}x{count[0]}{S}", insts=insts, nets=nets, in_ctx=rng.random() < 0.3)
+
+    for level in range(1, depth + 1):
+        levels.append([composite(level) for _ in range(2)])
+    # the top entity: inputs x, y (and slices of w), one output per instance so that nothing is optimised away
+    pool = [t for lv in levels for t in lv]
+    top_insts, top_nets, avail = [], [], (["x", "self.w[1:0].unsigned", "self.w[2:1].unsigned"] if with_slices else ["x", "y"])
+    n_top = rng.randint(2, 3)
+    used = []
+    for i in range(n_top):
+        sub = levels[-1][i % 2] if i < 2 else rng.choice(pool)          # repeated templates: the deepest composites first
+        out = f"o{i}"
+        top_insts.append((sub, {"a": rng.choice(avail), "b": rng.choice(avail), "s": out}))
+        avail.append(out)
+        used.append(sub)
+    return S, levels, top_insts
+
+
+def used_templates(top_insts):
+    seen, order = set(), []
+
+    def walk(t):
+        if t.name in seen:
+            return
+        for sub, _ in t.insts:
+            walk(sub)
+        seen.add(t.name)
+        order.append(t)
+    for t, _ in top_insts:
+        walk(t)
+    return order
+
+
+def random_designs(tier, seed):
+    rng = random.Random(seed)
+    ents = []
+    n = 8 if tier == "quick" else 40
+    for idx in range(n):
+        with_slices = idx % 4 == 3
+        while True:
+            S, levels, top_insts = random_tree(rng, idx, 1 + idx % 2 if tier == "quick" else 1 + idx % 3, with_slices)
+            out = {"conc": [], "seq": [], "nets": [], "registered": set()}
+            for i, (t, conn) in enumerate(top_insts):
+                def res(n):
+                    if n.startswith("self.w"):
+                        hi, lo = (1, 0) if "[1:0]" in n else (2, 1)
+                        return view(slice_(ref("w"), hi, lo), "u")
+                    return ref(n)
+                flatten(t, f"t{i}", {"a": res(conn["a"]), "b": res(conn["b"]), "s": conn["s"]}, out)
+            # keeps the product small: <= 4 state bits, and the elaborated design cheap enough to interpret
+            if 1 <= len(out["registered"]) <= 2 and len(out["conc"]) + len(out["seq"]) <= (9 if tier == "quick" else 14):
+                break
+        name = f"E12R_{idx:03d}"
+        tmpls = used_templates(top_insts)
+        outs = [conn["s"] for _, conn in top_insts]
+        ports = [port("clk", "in", BIT), port("x", "in", U2)] + ([port("w", "in", T("u", 3))] if with_slices else [port("y", "in", U2)]) + \
+                [port(o, "out", U2, **({"default": 0} if o in out["registered"] else {})) for o in outs]
+        objs = [obj(nm, "signal", U2, **({"default": 0} if nm in out["registered"] else {})) for nm in out["nets"]]
+        ctxs = ([conc_ctx("wires", out["conc"])] if out["conc"] else []) + out["seq"]
+        top_src = f"class {name}(cohdl.Entity):\n    clk = Port.input(Bit)\n    x = Port.input(Unsigned[2])\n" + \
+                  ("    w = Port.input(Unsigned[3])\n" if with_slices else "    y = Port.input(Unsigned[2])\n") + \
+                  "".join(f"    {o} = Port.output(Unsigned[2])\n" for o in outs) + "\n    def architecture(self):\n" + \
+                  "\n".join("        " + inst_src(t, conn, lambda nme: f"self.{nme}") for t, conn in top_insts) + "\n"
+        src = "\n\n".join(t.source() for t in tmpls) + "\n\n" + top_src
+        e = entity(name, ports, objs, ctxs)
+        e["source_override"] = src
+        e["family"] = f"random_tree_{idx}_depth{max((1 if t.kind else int(t.name[1])) for t in tmpls)}_templates{len(tmpls)}"
+        io = lambda t: ([["clk", "in", "std_logic", -1]] if t.seq else []) + [["a", "in", "unsigned", 2], ["b", "in", "unsigned", 2], ["s", "out", "unsigned", 2]]
+        e["ifaces"] = {t.name.lower(): io(t) for t in tmpls}
+        # the elaborated hierarchy is expensive to interpret (one clock settles every port association): breadth-first prefix
+        e["budget"] = {"quick": 130, "thorough": 1200}
+        ents.append(e)
+    return ents
+
+
 def build():
     ents = []
     for i, (tag, body, ports, objs, ctxs, leaves) in enumerate(tops()):
@@ -174,7 +338,7 @@ def build():
 def run(tier):
     t0 = time.time()
     V = vlib.Verdict("C12")
-    ents = build()
+    ents = build() + random_designs(tier, vlib.seed() + 1212)
     with vlib.Scratch() as scratch:
         # one module per design (the leaf templates are suffixed per design so that every compilation is separate)
         obs = vlib.compile_entities(ents, scratch, per_module=1, tag="gc12")
@@ -207,7 +371,7 @@ def run(tier):
                         V.violation(f"static-interface:{fam[did]}|{en}: emitted {g} declared {exp}",
                                     {"clause": "Interface", "entity": en, "emitted": g, "declared": exp, "vhdl": obs[did]["vhdl"]})
         # dynamic part: hierarchical VHDL (elaborated by VhdlSem) versus CoSem of the flat reference, all input sequences
-        V, cov = product.run("C12", tier, ents, lambda e: 0, scratch, timeout=1500, verdict=V, finish=False)
+        V, cov = product.run("C12", tier, ents, lambda e: 0, scratch, timeout=1500 if tier == "quick" else 9000, verdict=V, finish=False)
     cov.update({"static_designs_checked": static_checked,
                 "rule": "hand-written instantiation trees (leaf templates add/register/compare; nested entity used twice; same template "
                         "several times; keyword arguments out of declaration order; slice and typed-view actuals; parent register wired "
